@@ -118,7 +118,7 @@ func classify(r *h.Run, data []byte, bounds []int) {
 func TestCheck(t *testing.T) {
 	r := h.Start(t, "C05")
 	defer r.Finish()
-	r.Meta("rule", "streams = encodings (simple and reference mode) of the C01 universe values, sequences of 2..4 values followed by trailing bytes, and truncations of them; each stream is decoded from memory (reference) and from readers that fragment it: every two-way split position, every fixed chunk size 1..64 and 255/256/257, seeded random chunk sequences with interleaved zero-byte reads, iotest.OneByteReader/HalfReader/DataErrReader; buffer sizes 256/257/512/4096; fresh decoders and the pooled Formatter.UnmarshalFromReader; typed and interface{} destinations. Outcome compared: decoded values (eqv.Equal), error nil-ness, Remains(). distinct_nontrivial = distinct (stream, fragmentation pattern, buffer size) triples with at least one refill inside the stream")
+	r.Meta("rule", "streams = encodings (simple and reference mode) of the C01 universe values, sequences of 2..4 values followed by trailing bytes, and truncations of them; each stream is decoded from memory (reference) and from readers that fragment it: every two-way split position, every fixed chunk size 1..64 and 255/256/257, seeded random chunk sequences with interleaved zero-byte reads, iotest.OneByteReader/HalfReader/DataErrReader; buffer sizes 256/257/512/4096; fresh decoders and the pooled Formatter.UnmarshalFromReader; typed and interface{} destinations. Outcome compared: decoded values (eqv.Equal), error nil-ness, Remains(). distinct_nontrivial = distinct (stream, fragmentation pattern, buffer size) triples with at least one refill inside the stream Added: a third of the reader-mode decodes use a decoder that has read only part of an earlier stream and is pointed at the new reader with ResetReader.")
 	r.Meta("assumptions", []string{
 		"the in-memory decoder is the reference (differential oracle): no expected values are needed",
 		"error outcome = both nil or both non-nil; error texts are not compared",
@@ -406,11 +406,24 @@ func compare(c *h.Case, s stream, rng *rand.Rand, few bool) {
 				})
 				got.err = err
 				got.vals = []reflect.Value{ptr.Elem()}
+			} else if reused := p.mk == nil && pi%3 == 1; reused {
+				// a decoder that read only part of an earlier stream (more was buffered than
+				// decoded) is pointed at this reader with ResetReader: nothing of the earlier
+				// stream may be seen
+				dec := hio.NewDecoderFromReader(bytes.NewReader([]byte(`i7;s4"left"a2{1;2}i9;`)), bs)
+				var first int
+				dec.Decode(&first)
+				if dec.Error != nil || first != 7 {
+					c.Violation("reused-decoder-prelude-failed", fmt.Sprintf("first=%d err=%v", first, dec.Error), nil)
+				}
+				dec.ResetReader(rd)
+				got = decodeAll(dec, s.t, s.k, s.simple, set)
+				r.Stat("decoders_reused_with_ResetReader", 1)
 			} else {
 				got = decodeAll(hio.NewDecoderFromReader(rd, bs), s.t, s.k, s.simple, set)
 			}
 			r.Eval(1)
-			rep := map[string]interface{}{"type": s.t.String(), "label": s.label, "simple": s.simple, "k": s.k, "pattern": p.name, "sizes": p.sizes, "bufsize": bs, "pooled": pooled, "bytes": h.Hex(clipb(s.data, 900)), "setting": set.String()}
+			rep := map[string]interface{}{"type": s.t.String(), "label": s.label, "simple": s.simple, "k": s.k, "pattern": p.name, "sizes": p.sizes, "bufsize": bs, "pooled": pooled, "decoder_reused_after_partial_stream": !pooled && p.mk == nil && pi%3 == 1, "bytes": h.Hex(clipb(s.data, 900)), "setting": set.String()}
 			sigT := s.t.String()
 			if len(sigT) > 60 {
 				sigT = sigT[:60]
